@@ -665,7 +665,18 @@ theorem windSum_flat (pre : List (Seg K)) (rows : List (Seg K × List (K × K)))
     congr 1
     simp only [hitsOf, List.map_map, own, Function.comp_def, h0]
 
-theorem tanSign_line (a b : Pt K) (t : K) : tanSign (Seg.line a b) t = if b.y - a.y < 0 then -1 else 1 := rfl
+theorem tanSign_line (a b : Pt K) (t : K) : tanSign (Seg.line a b) t = if b.y - a.y < 0 then -1 else 1 := by
+  unfold tanSign
+  by_cases h : dY (Seg.line a b) t = 0
+  · rw [if_pos h]
+    have h' : b.y - a.y = 0 := h
+    have ht : travelY (Seg.line a b) t = 0 := by
+      unfold travelY
+      simp only [Seg.eval, line_pointAtTime_y]
+      have : b.y = a.y := by linarith
+      rw [this]; ring
+    rw [ht, h']
+  · rw [if_neg h]; rfl
 
 /-- side indicator of a vertex with respect to the level py -/
 def side (py : K) (v : Pt K) : Int := if v.y < py then 0 else 1
